@@ -321,18 +321,20 @@ func (g *Global) deserialize(buf *bytes.Buffer) error {
 			if g.InputCount != 0 {
 				return ErrGlobalDuplicatedField("input count")
 			}
-			if len(kp.Value) != 1 {
+			inputCount, err := readCompactSize(kp.Value)
+			if err != nil {
 				return ErrGlobalInvalidInputCountLen
 			}
-			g.InputCount = uint64(kp.Value[0])
+			g.InputCount = inputCount
 		case GlobalOutputCount:
 			if g.OutputCount != 0 {
 				return ErrGlobalDuplicatedField("output count")
 			}
-			if len(kp.Value) != 1 {
+			outputCount, err := readCompactSize(kp.Value)
+			if err != nil {
 				return ErrGlobalInvalidOutputCountLen
 			}
-			g.OutputCount = uint64(kp.Value[0])
+			g.OutputCount = outputCount
 		case GlobalTxModifiable:
 			if g.TxModifiable != nil {
 				return ErrGlobalDuplicatedField("tx modifiable")
@@ -398,6 +400,20 @@ func (g *Global) deserialize(buf *bytes.Buffer) error {
 	}
 
 	return g.SanityCheck()
+}
+
+// readCompactSize decodes a value that holds exactly one compact size integer,
+// the encoding getKeyPairs writes for the input and output counts.
+func readCompactSize(value []byte) (uint64, error) {
+	r := bytes.NewReader(value)
+	n, err := wire.ReadVarInt(r, 0)
+	if err != nil {
+		return 0, err
+	}
+	if r.Len() != 0 {
+		return 0, fmt.Errorf("trailing bytes after compact size")
+	}
+	return n, nil
 }
 
 func stepToString(step uint32) string {
